@@ -580,7 +580,7 @@ pub fn run(ctx: &Ctx, replay: Option<&J>) -> CheckResult {
     }
     let pool = pool(ctx.seed);
     let np = pool.len();
-    let cases = ctx.n(1_000_000, 30_000_000);
+    let cases = ctx.n(1_000_000, 100_000_000);
     let idx = |i: u16| -> usize { (i as usize * np) >> 16 };
     let (mut ev, vs) = pt_run(
         ctx,
